@@ -52,3 +52,70 @@ Example C19_example_history :
   run_passes run_pass g0 [{| an_go_ok := false; an_ctor_ok := true |}; {| an_go_ok := true; an_ctor_ok := true |}]
   = [PassInitError; PassSkipped] /\ cache_ok g0.
 Proof. vm_compute. auto. Qed.
+
+(* ---------------- round 5: targets that yield nothing ----------------
+   "a target ... is reported as a load error or analysed": an argument that yields no package with files ends the run
+   in "load program", whatever else was named. *)
+Theorem C19_cli_targets_invalid_fatal : forall c,
+  target_config_valid c = false -> exists step, run_cli_targets c = Fatal step.
+Proof. exact targets_invalid_fatal. Qed.
+Print Assumptions C19_cli_targets_invalid_fatal.
+Theorem C19_cli_targets_valid_runs : forall c, target_config_valid c = true -> run_cli_targets c = Ran.
+Proof. exact targets_valid_runs. Qed.
+Print Assumptions C19_cli_targets_valid_runs.
+Theorem C19_cli_missing_target_is_load_error : forall c,
+  args_parse_ok (tc_base c) = true -> load_ok (tc_base c) = true -> tc_all_targets_yield c = false ->
+  run_cli_targets c = Fatal "load program".
+Proof. exact missing_target_is_load_error. Qed.
+Print Assumptions C19_cli_missing_target_is_load_error.
+(* before the repair such an argument was ignored: the run went on and, when nothing else was named, exited 0 *)
+Theorem C19_cli_missing_target_prefix_refuted :
+  exists c, target_config_valid c = false /\ run_cli_targets_prefix c = Ran.
+Proof. exact missing_target_prefix_refuted. Qed.
+Print Assumptions C19_cli_missing_target_prefix_refuted.
+
+(* ---------------- round 5: the sub-command dispatcher is total and fails on everything it does not know ---------------- *)
+Theorem C19_dispatch_total : forall argv,
+  (exists a, argv = "check" :: a /\ dispatch argv = DCheck a)
+  \/ (exists a, argv = "doc" :: a /\ dispatch argv = DDoc a)
+  \/ (exists a, argv = "help" :: a /\ dispatch argv = DHelp)
+  \/ (exists a, argv = "version" :: a /\ dispatch argv = DVersion)
+  \/ ((argv = [] \/ exists c r, argv = c :: r /\ ~ In c subcommands) /\ exists m, dispatch argv = DError m).
+Proof. exact dispatch_cases. Qed.
+Print Assumptions C19_dispatch_total.
+Theorem C19_unknown_subcommand_fails : forall known cs argv,
+  (argv = [] \/ exists c r, argv = c :: r /\ ~ In c subcommands) -> main_status known cs argv = 1%Z.
+Proof. exact unknown_subcommand_fails. Qed.
+Print Assumptions C19_unknown_subcommand_fails.
+(* the runner alone (before run() refused the empty word) matched "" against the commands' empty aliases and ran check *)
+Theorem C19_empty_word_prefix_runs_check : forall known cs r, main_status_empty_word_prefix known cs ("" :: r) = cs r.
+Proof. exact empty_word_prefix_runs_check. Qed.
+Print Assumptions C19_empty_word_prefix_runs_check.
+Theorem C19_unknown_subcommand_fails_prefix_refuted :
+  exists known cs argv, (exists c r, argv = c :: r /\ ~ In c subcommands) /\ main_status_empty_word_prefix known cs argv = 0%Z.
+Proof. exact empty_word_prefix_refuted. Qed.
+Print Assumptions C19_unknown_subcommand_fails_prefix_refuted.
+Theorem C19_status_zero_known_subcommand : forall known cs argv,
+  main_status known cs argv = 0%Z -> exists c r, argv = c :: r /\ In c subcommands.
+Proof. exact status_zero_known_subcommand. Qed.
+Print Assumptions C19_status_zero_known_subcommand.
+Theorem C19_doc_unknown_checker_fails : forall known cs n,
+  known n = false -> has_prefix "-" n = false -> main_status known cs ["doc"; n] = 1%Z.
+Proof. exact doc_unknown_checker_fails. Qed.
+Print Assumptions C19_doc_unknown_checker_fails.
+Theorem C19_doc_status_zero : forall known args,
+  doc_status known args = 0%Z ->
+  exists pos, doc_parse args = Some pos /\ (pos = [] \/ exists n, pos = [n] /\ known n = true).
+Proof. exact doc_status_zero. Qed.
+Print Assumptions C19_doc_status_zero.
+(* run() before the repair printed the runner's error and returned: exit 0 *)
+Theorem C19_main_status_prefix_refuted :
+  exists known cs argv, (exists c r, argv = c :: r /\ ~ In c subcommands) /\ main_status_prefix known cs argv = 0%Z.
+Proof. exact main_status_prefix_refuted. Qed.
+Print Assumptions C19_main_status_prefix_refuted.
+
+Example C19_example_dispatch :
+  main_status (fun n => String.eqb n "sloppyLen") (fun _ => 1%Z) ["doc"; "sloppyLen"] = 0%Z
+  /\ main_status (fun n => String.eqb n "sloppyLen") (fun _ => 1%Z) ["doc"; "--"; "-x"] = 1%Z
+  /\ dispatch ["chek"] = DError ("no such command " ++ quote "chek").
+Proof. vm_compute. auto. Qed.
